@@ -13,6 +13,8 @@ From OV Require Import Model.TreeDef Model.TreeHeap Model.TreeHeapBase Model.Tre
   Gen.TreeOps.
 From OV Require Model.TreeAlgo Model.TreeAlgoDescr Gen.TreeAlgoDescr.
 From OV Require Import Model.TreeHeapAlgoLink.
+From OV Require Base.FloatKey Model.Prims Model.SelDescr Model.SelModel Gen.SelDescr.
+From OV Require Import Model.TreeHeapSelLink.
 Import ListNotations.
 
 Theorem C09_arity_table_ok : tab_ok arity_tab.
@@ -306,3 +308,70 @@ Theorem C09_n_nodes_in_operators_is_node_py : forall d,
   forall st t, WFt arity_tab st t ->
   n_nodes st (tid t) = res_of_zcount (OV.Model.TreeAlgoDescr.interp_props d t).
 Proof. exact (n_nodes_WFt_is_descr arity_tab _ C09_descr_properties_regenerated). Qed.
+
+(* ---- what the population-level code calls in math/general.py.  [tournament] (called by [reproduction], [mutation],
+   [crossover]: g.tournament_selection(fitness, n)) and [pairs] (the `for father, mother in g.pairwise(selected)` of
+   _crossover, statement PForPairs) of the heap model are the interpretation of the bodies REGENERATED from general.py
+   (translate/t_sel.py -> Gen/SelDescr.v, the same file C18 is about; regenerated by this check as well).
+   Fitness values: the model compares integer codes with Z.min / Z.eqb; general.py compares floats.  On the numeric
+   keys [nk k] of NaN-free floats (Base/FloatKey.v: -0.0 and +0.0 share one) -- and on ANY integer coding that
+   preserves the IEEE order of the floats, as the harness's small codes do -- the two coincide for every tournament
+   size, every fitness list, every n and every script of picks, the runs without a result included.  Result map
+   [res_opt] (Model/TreeHeapSelLink.v): Ok x -> Some x; Exn (min of nothing) and Stuck (script exhausted, position
+   outside the list) -> None, as the interpreter of Model/SelDescr.v answers.
+   The bodies regenerated on this run are the descriptions Model/SelModel.v is about ... *)
+Theorem C09_tournament_source_regenerated : OV.Gen.SelDescr.tournament_src = OV.Model.SelModel.tournament_descr.
+Proof. reflexivity. Qed.
+
+Theorem C09_pairwise_source_regenerated : OV.Gen.SelDescr.pairwise_src = OV.Model.SelModel.pairwise_descr.
+Proof. reflexivity. Qed.
+
+(* ... the heap model's selection is Model/Prims.v's, whatever the tournament size ... *)
+Theorem C09_tournament_heap_is_prims : forall ts fitk n picks,
+  res_opt (tournament ts (map OV.Base.FloatKey.nk fitk) n picks) = OV.Model.Prims.tournament ts fitk n picks.
+Proof. exact heap_tournament_is_prims. Qed.
+
+(* ... and depends on the order of the fitness codes only *)
+Theorem C09_tournament_depends_on_order_only : forall (phi : Z -> Z) fit,
+  (forall a b, In a fit -> In b fit -> (phi a <? phi b)%Z = (a <? b)%Z) ->
+  forall ts n picks, tournament ts (map phi fit) n picks = tournament ts fit n picks.
+Proof. exact heap_tournament_recode. Qed.
+
+(* ... hence the regenerated code, at the regenerated TOURNAMENT_SIZE and at any other value of it *)
+Theorem C09_tournament_in_gp_is_general_py : forall fitk n picks,
+  res_opt (tournament tournament_size (map OV.Base.FloatKey.nk fitk) n picks) =
+  OV.Model.SelDescr.run_tournament tournament_size OV.Gen.SelDescr.tournament_src fitk n picks.
+Proof.
+  intros. rewrite C09_tournament_source_regenerated, OV.Model.SelModel.tournament_is_descr.
+  apply heap_tournament_is_prims.
+Qed.
+
+Theorem C09_tournament_in_gp_is_general_py_any_size : forall ts fitk n picks,
+  res_opt (tournament ts (map OV.Base.FloatKey.nk fitk) n picks) =
+  OV.Model.SelDescr.run_tournament ts OV.Gen.SelDescr.tournament_src fitk n picks.
+Proof.
+  intros. rewrite C09_tournament_source_regenerated, OV.Model.SelModel.tournament_is_descr.
+  apply heap_tournament_is_prims.
+Qed.
+
+(* on integer codes: [code] any map of the numeric keys that preserves the IEEE order of the fitness values *)
+Theorem C09_tournament_on_codes_is_general_py : forall (code : Z -> Z) fitk,
+  (forall a b, In a fitk -> In b fitk ->
+     (code (OV.Base.FloatKey.nk a) <? code (OV.Base.FloatKey.nk b))%Z = OV.Base.FloatKey.klt a b) ->
+  forall ts n picks,
+  res_opt (tournament ts (map (fun k => code (OV.Base.FloatKey.nk k)) fitk) n picks) =
+  OV.Model.SelDescr.run_tournament ts OV.Gen.SelDescr.tournament_src fitk n picks.
+Proof.
+  intros code fitk H ts n picks.
+  rewrite C09_tournament_source_regenerated, OV.Model.SelModel.tournament_is_descr.
+  apply heap_tournament_codes_is_prims. exact H.
+Qed.
+
+(* g.pairwise(selected) on a list of indices: the tuples the returned iterator yields are [pairs] *)
+Theorem C09_pairs_in_gp_is_general_py : forall ts (l : list nat),
+  OV.Model.SelDescr.run_pairwise ts OV.Gen.SelDescr.pairwise_src (map OV.Model.SelDescr.AInt l) =
+  Some (map (fun c => OV.Model.SelDescr.VTuple (map OV.Model.SelDescr.AInt c)) (pairs l)).
+Proof.
+  intros. rewrite C09_pairwise_source_regenerated, OV.Model.SelModel.pairwise_is_descr,
+    OV.Model.SelModel.pairwise_map, map_map, heap_pairs_is_prims_pairwise. reflexivity.
+Qed.
